@@ -148,7 +148,7 @@ def load(reg):
         # an arbitrary callable: may do anything through public APIs, may raise anything
         from pyvc.calls import havoc_paths
         outs = []
-        for raising in (False, True):
+        for raising in (False, "Exception", "SystemExit"):
             s2 = s.fork()
             pre = s
             havoc_paths(eng, ["heap.*"], s2.env, s2)
@@ -162,7 +162,8 @@ def load(reg):
                 if key in s2.heap and key in pre.heap:
                     s2.assume(s2.heap[key] == pre.heap[key])
             s2.notes.append("handler %s" % ("raised" if raising else "returned"))
-            outs.append((s2, Raise("Exception", origin="callee:handler", site="handler") if raising else mk_none()))
+            # a handler may fail with any exception, including ones outside the Exception hierarchy (sys.exit())
+            outs.append((s2, Raise(raising, origin="callee:handler", site="handler") if raising else mk_none()))
         return outs
     reg.specfun("call_field__method", call_method)
     reg.contract("SimEvent.execute", params={},
